@@ -1,0 +1,109 @@
+//go:build verif
+
+package fasta
+
+// Contracts for the verification machinery in /verif (govc): comment-only file,
+// compiled (to nothing) only under the build tag "verif".
+//
+// Ghost state of the input: gfield(r, rem) = runes left in the bufio.Reader r
+// (assumed contract of ReadRune/UnreadRune in /verif/specs/externs.spec).
+// Progress measure of the parser: M = 2*rem + buf.n  (a token taken from the
+// one-token push-back buffer lowers it by 1, a token read from the input by >= 2).
+
+//@ pure func srem(s *Scanner) int = gfield(s.r, rem)
+//@ pure func sok(s *Scanner) bool = s != nil && s.r != nil && gfield(s.r, rem) >= 0
+
+//@ func (*Scanner).read
+//@   props C03
+//@   requires sok(s)
+//@   ensures sok(s) && s.r == old(s.r)
+//@   ensures srem(s) == old(srem(s)) || (srem(s) == old(srem(s)) - 1 && gfield(s.r, unread) == 1)
+//@   ensures srem(s) == old(srem(s)) ==> result == 0 && gfield(s.r, unread) == 0
+//@   ensures old(srem(s)) > 0 ==> srem(s) == old(srem(s)) - 1
+//@   modifies gfield(s.r, rem), gfield(s.r, unread)
+
+//@ func (*Scanner).unread
+//@   props C03
+//@   requires sok(s)
+//@   ensures sok(s) && s.r == old(s.r) && gfield(s.r, unread) == 0
+//@   ensures srem(s) == old(srem(s)) + (old(gfield(s.r, unread)) == 1 ? 1 : 0)
+//@   modifies gfield(s.r, rem), gfield(s.r, unread)
+
+// the end-of-line and identifier scanners are entered after an unread of the rune just read: they consume at least that rune
+//@ func (*Scanner).scanEndOfLine
+//@   props C03
+//@   requires sok(s) && srem(s) > 0
+//@   ensures sok(s) && s.r == old(s.r) && srem(s) < old(srem(s)) && tok == ENDOFLINE
+//@   modifies gfield(s.r, rem), gfield(s.r, unread), gfield(blen)
+//@   loop 1
+//@     invariant sok(s) && s.r == old(s.r) && srem(s) < old(srem(s))
+//@     decreases srem(s)
+
+//@ func (*Scanner).scanIdent
+//@   props C03
+//@   requires sok(s) && srem(s) > 0
+//@   ensures sok(s) && s.r == old(s.r) && srem(s) < old(srem(s)) && tok == IDENTIFIER && len(lit) >= 1
+//@   modifies gfield(s.r, rem), gfield(s.r, unread), gfield(blen)
+//@   loop 1
+//@     invariant sok(s) && s.r == old(s.r) && srem(s) < old(srem(s)) && gfield(buf, blen) >= 1
+//@     decreases srem(s)
+
+// Scan: either the end-of-file token, or at least one rune has been consumed
+//@ func (*Scanner).Scan
+//@   props C03
+//@   requires sok(s)
+//@   ensures sok(s) && s.r == old(s.r) && srem(s) <= old(srem(s))
+//@   ensures tok == EOF || srem(s) < old(srem(s))
+//@   ensures tok == EOF || tok == STARTIDENT || tok == IDENTIFIER || tok == ENDOFLINE
+//@   ensures tok == IDENTIFIER ==> len(lit) >= 1
+//@   modifies gfield(s.r, rem), gfield(s.r, unread), gfield(blen)
+
+// ---- parser ----
+
+//@ pure func pok(p *Parser) bool = p != nil && sok(p.s) && (p.buf.n == 0 || p.buf.n == 1)
+//@ pure func pM(p *Parser) int = 2 * srem(p.s) + p.buf.n
+
+// scan: the end-of-file token, or the progress measure strictly decreases
+//@ func (*Parser).scan
+//@   props C03
+//@   requires pok(p)
+//@   ensures pok(p) && p.s == old(p.s) && p.s.r == old(p.s.r) && pM(p) <= old(pM(p)) && p.buf.n == 0
+//@   ensures tok == EOF || pM(p) < old(pM(p))
+//@   ensures tok == IDENTIFIER && old(p.buf.n) == 0 ==> len(lit) >= 1
+//@   modifies p.buf.n, p.buf.tok, p.buf.lit, gfield(p.s.r, rem), gfield(p.s.r, unread), gfield(blen)
+
+//@ func (*Parser).unscan
+//@   props C03
+//@   requires pok(p)
+//@   ensures pok(p) && p.buf.n == 1 && srem(p.s) == old(srem(p.s)) && p.s == old(p.s) && p.s.r == old(p.s.r)
+//@   modifies p.buf.n
+
+//@ func (*Parser).scanIgnoreEndOfLine
+//@   props C03
+//@   requires pok(p)
+//@   ensures pok(p) && p.s == old(p.s) && p.s.r == old(p.s.r) && pM(p) <= old(pM(p)) && p.buf.n == 0
+//@   ensures tok == EOF || pM(p) < old(pM(p))
+//@   modifies p.buf.n, p.buf.tok, p.buf.lit, gfield(p.s.r, rem), gfield(p.s.r, unread), gfield(blen)
+
+// parseGeneric: terminates; success implies at least one sequence was added and the bag is well formed
+//@ func (*Parser).parseGeneric
+//@   props C03
+//@   requires pok(p) && sb != nil && wf(sb) && nrows(sb) == 0 && (isalign(sb) ==> wfa(sb))
+//@   ensures err == nil ==> wf(sb) && (isalign(sb) ==> wfa(sb)) && nrows(sb) >= 1
+//@   modifies p.buf.n, p.buf.tok, p.buf.lit, gfield(rem), gfield(unread), gfield(blen), field(align.seqbag.seqs), field(align.align.length), mem(*align.seq), maps(map[string]*align.seq), field(align.seqbag.alphabet)
+//@   loop 1
+//@     invariant pok(p) && err == nil && sb != nil && wf(sb) && (isalign(sb) ==> wfa(sb)) && isalign(sb) == old(isalign(sb))
+//@     invariant nrows(sb) == 0 ==> true
+//@     decreases (tok == EOF ? 0 : pM(p) + 1)
+
+//@ func (*Parser).Parse
+//@   props C03
+//@   requires pok(p)
+//@   ensures err == nil ==> al != nil && wfa(al) && nrows(al) >= 1 && al.length >= 0
+//@   modifies p.buf.n, p.buf.tok, p.buf.lit, gfield(rem), gfield(unread), gfield(blen), field(align.seqbag.seqs), field(align.align.length), mem(*align.seq), maps(map[string]*align.seq), field(align.seqbag.alphabet), field(align.seqbag.ignoreidentical)
+
+//@ func (*Parser).ParseUnalign
+//@   props C03
+//@   requires pok(p)
+//@   ensures err == nil ==> sb != nil && wf(sb) && nrows(sb) >= 1
+//@   modifies p.buf.n, p.buf.tok, p.buf.lit, gfield(rem), gfield(unread), gfield(blen), field(align.seqbag.seqs), field(align.align.length), mem(*align.seq), maps(map[string]*align.seq), field(align.seqbag.alphabet), field(align.seqbag.ignoreidentical)
